@@ -1,21 +1,31 @@
 /-
-Error detection of the Bech32 / Bech32m checksum, part 2: FOUR substituted symbols (the BIP-173
-guarantee), by a lane-parallel kernel evaluation.
+Error detection of the Bech32 / Bech32m / CashAddr checksums, part 2: THREE and FOUR substituted
+symbols, by a lane-parallel kernel evaluation.
+
+  * `bech32_detects_three`: 3 substitutions, data part ≤ 256 symbols;
+  * `bech32_detects_four` : 4 substitutions, data part ≤ 89 symbols — with parts 1–3 this is the
+    BIP-173 guarantee "any error affecting at most 4 characters is detected" (a BIP-173 string has at
+    most 88 data symbols), for substitutions in the data part;
+  * `bch_detects_three`   : CashAddr, 3 substitutions, data part ≤ 113 symbols.
 
 `BechDistance.lean` reduces "`w` substitutions are detected" to facts of the form
 `x^k1 (x^k2 (x^k3 a ^^^ b) ^^^ c) ≥ 32` for all symbols `a, b, c ∈ [1,31]` and all distances with
-`k1 + k2 + k3 ≤ N`.  For four errors in 89 symbols that is 31^3 · C(88,3) ≈ 3·10^9 register steps,
+`k1 + k2 + k3 ≤ N`.  For four errors in 89 symbols that is 31^3 · C(89,3) ≈ 3·10^9 register steps,
 far too many for a scalar kernel loop.  Two reductions make it a one-minute computation:
 
   * SIMD inside a bignum: the registers for all `(b, c)` are packed as 30-bit lanes of ONE natural
     number; `&&&`, `^^^`, shifts and a multiplication by the generator constants act on all 961
     lanes at once, and "every lane ≥ 32" is one addition and a mask.  `vX_pack` / `vTest_spec`
-    prove (for any number of lanes) that these big-number operations are the lane-wise register
-    step and the lane-wise test.
-  * GF(32) symmetry: the generator is a polynomial over GF(32), so the symbol-wise scalar
-    multiplications `smul λ` are GF(2)-linear maps commuting with `x`; scaling by `a⁻¹` moves the
-    first error symbol to `1`.  Linearity is by construction (`linExp`), the commutation and inverse
-    laws are checked on the 30 basis vectors (`lin_ext`).
+    prove (for any number of lanes and any register width) that these big-number operations are the
+    lane-wise register step and the lane-wise test; `runV_spec`, `loopK2_spec`, `loopK3_spec`
+    turn the kernel-evaluated loops into the quantified facts.
+  * GF(32) symmetry (Bech32 only): the generator is a polynomial over GF(32), so the symbol-wise
+    scalar multiplications `smul lam` are GF(2)-linear maps commuting with `x`; scaling by `a⁻¹`
+    moves the first error symbol to `1` (`scale_first`).  Linearity is by construction (`linExp`),
+    the commutation law is checked on the 30 basis vectors and extended by `lin_ext`.
+
+Cost: the kernel evaluation allocates ≈ 12 GB in total (every intermediate 3.6 kB number is kept
+in the kernel's reduction cache of the declaration being checked); ≈ 1.5 minutes.
 -/
 import BipVerif.Lemmas.BechDistance
 
@@ -320,6 +330,31 @@ theorem vTest_spec : ∀ l : List Nat, (∀ v ∈ l, v < 2 ^ (W + 5)) →
       rw [vTest_eq, e2]
       exact Nat.beq_refl _
 
+theorem vX_pack_map (hg0 : g0 < 2 ^ (W + 5)) (hg1 : g1 < 2 ^ (W + 5)) (hg2 : g2 < 2 ^ (W + 5))
+    (hg3 : g3 < 2 ^ (W + 5)) (hg4 : g4 < 2 ^ (W + 5)) {τ : Type} (T : List τ) (g : τ → Nat)
+    (hg : ∀ t ∈ T, g t < 2 ^ (W + 5)) :
+    vX W g0 g1 g2 g3 g4 (pack (W + 5) (List.replicate T.length (2 ^ W - 1)))
+      (pack (W + 5) (List.replicate T.length 1)) (pack (W + 5) (T.map g))
+      = pack (W + 5) (T.map fun t => sX W g0 g1 g2 g3 g4 (g t)) := by
+  have h := vX_pack W g0 g1 g2 g3 g4 hg0 hg1 hg2 hg3 hg4 (T.map g) (by
+    intro v hv
+    obtain ⟨t, ht, rfl⟩ := List.mem_map.1 hv
+    exact hg t ht)
+  rw [List.length_map, List.map_map] at h
+  exact h
+
+theorem vTest_map {τ : Type} (T : List τ) (g : τ → Nat) (hg : ∀ t ∈ T, g t < 2 ^ (W + 5))
+    (h : vTest W (pack (W + 5) (List.replicate T.length (2 ^ W - 1)))
+      (pack (W + 5) (List.replicate T.length 1)) (pack (W + 5) (T.map g)) = true) :
+    ∀ t ∈ T, 32 ≤ g t := by
+  have h' := vTest_spec W (T.map g) (by
+    intro v hv
+    obtain ⟨t, ht, rfl⟩ := List.mem_map.1 hv
+    exact hg t ht)
+  rw [List.length_map] at h'
+  intro t ht
+  exact h' h (g t) (List.mem_map_of_mem ht)
+
 end Vec
 
 /-! ### the kernel-evaluated loops over a packed vector
@@ -442,5 +477,499 @@ theorem iterV_spec : ∀ (n : Nat) (g : τ → Nat), (∀ t ∈ T, g t < 2 ^ L) 
     rfl
 
 end LoopSpec
+
+/-! ### GF(2)-linear maps given by columns; extensionality on the basis `2^i` -/
+
+/-- the linear map with columns `cols 0, …, cols (n-1)`. -/
+def linExp (cols : Nat → Nat) : Nat → Nat → Nat
+  | 0, _ => 0
+  | n + 1, s => linExp cols n s ^^^ (if s.testBit n then cols n else 0)
+
+theorem linExp_linear (cols : Nat → Nat) (n x y : Nat) :
+    linExp cols n (x ^^^ y) = linExp cols n x ^^^ linExp cols n y := by
+  induction n with
+  | zero => simp [linExp]
+  | succ n ih =>
+    simp only [linExp, ih, Nat.testBit_xor]
+    generalize linExp cols n x = p
+    generalize linExp cols n y = q
+    cases x.testBit n <;> cases y.testBit n
+    · simp
+    · simp [Nat.xor_assoc]
+    · simp only [Bool.xor_false, if_true, Bool.false_eq_true, if_false, Nat.xor_zero]; ac_rfl
+    · have e : p ^^^ cols n ^^^ (q ^^^ cols n) = (p ^^^ q) ^^^ (cols n ^^^ cols n) := by ac_rfl
+      simp only [Bool.xor_self, Bool.false_eq_true, if_false, if_true, Nat.xor_zero]
+      rw [e, Nat.xor_self, Nat.xor_zero]
+
+theorem linExp_lt (cols : Nat → Nat) (L : Nat) : ∀ n, (∀ i, i < n → cols i < 2 ^ L) →
+    ∀ s, linExp cols n s < 2 ^ L := by
+  intro n
+  induction n with
+  | zero => intro _ s; simp [linExp]
+  | succ n ih =>
+    intro h s
+    simp only [linExp]
+    apply Nat.xor_lt_two_pow (ih (fun i hi => h i (by omega)) s)
+    by_cases hb : s.testBit n
+    · simp only [hb, if_true]; exact h n (by omega)
+    · simp only [hb]; exact Nat.two_pow_pos L
+
+theorem xor_two_pow_lt {n s : Nat} (h1 : 2 ^ n ≤ s) (h2 : s < 2 ^ (n + 1)) : s ^^^ 2 ^ n < 2 ^ n := by
+  have hb : s - 2 ^ n < 2 ^ n := by rw [pow_succ] at h2; omega
+  have e1 : s = (s - 2 ^ n) + 2 ^ n * 1 := by omega
+  have e2 : 2 ^ n = 0 + 2 ^ n * 1 := by omega
+  have := xor_split (L := n) 1 1 hb (Nat.two_pow_pos n)
+  rw [← e1, ← e2, Nat.xor_self, Nat.xor_zero, Nat.mul_zero, Nat.add_zero] at this
+  rw [this]; exact hb
+
+/-- two XOR-linear maps that agree on `2^i`, `i < n`, agree below `2^n`. -/
+theorem lin_ext (f g : Nat → Nat) (hf : ∀ x y, f (x ^^^ y) = f x ^^^ f y)
+    (hg : ∀ x y, g (x ^^^ y) = g x ^^^ g y) : ∀ n, (∀ i, i < n → f (2 ^ i) = g (2 ^ i)) →
+    ∀ s, s < 2 ^ n → f s = g s := by
+  have f0 : f 0 = 0 := by have := hf 0 0; rw [Nat.xor_self] at this; rw [this, Nat.xor_self]
+  have g0 : g 0 = 0 := by have := hg 0 0; rw [Nat.xor_self] at this; rw [this, Nat.xor_self]
+  intro n
+  induction n with
+  | zero =>
+    intro _ s hs
+    have : s = 0 := by simpa using hs
+    rw [this, f0, g0]
+  | succ n ih =>
+    intro hb s hs
+    by_cases hlt : s < 2 ^ n
+    · exact ih (fun i hi => hb i (by omega)) s hlt
+    · have hr := xor_two_pow_lt (Nat.le_of_not_lt hlt) hs
+      have e : s = (s ^^^ 2 ^ n) ^^^ 2 ^ n := by
+        rw [Nat.xor_assoc, Nat.xor_self, Nat.xor_zero]
+      rw [e, hf, hg, ih (fun i hi => hb i (by omega)) _ hr, hb n (by omega)]
+
+/-! ### scaling the first error symbol to 1 -/
+
+section Scale
+variable {W : Nat} {G : Nat → Nat}
+
+theorem LinReg.mulX_linear (h : LinReg W G) (x y : Nat) :
+    mulX W G (x ^^^ y) = mulX W G x ^^^ mulX W G y := by
+  have := pmStep_linear W G h.lin x y 0 0
+  rwa [Nat.xor_self] at this
+
+/-- a family `sm lam` of linear maps commuting with `x`, preserving symbols, transitive on the
+non-zero symbols: the four-error fact only has to be checked for first symbol `1`. -/
+theorem LinReg.scale_first (h : LinReg W G) (sm : Nat → Nat → Nat) (inv : Nat → Nat)
+    (hlin : ∀ lam x y, sm lam (x ^^^ y) = sm lam x ^^^ sm lam y)
+    (hcomm : ∀ lam, 1 ≤ lam → lam < 32 → ∀ s, s < 2 ^ (W + 5) →
+      sm lam (mulX W G s) = mulX W G (sm lam s))
+    (hsym : ∀ lam, lam < 32 → ∀ v, v < 32 → sm lam v < 32 ∧ (1 ≤ lam → 1 ≤ v → 1 ≤ sm lam v))
+    (hinv : ∀ a, 1 ≤ a → a < 32 → 1 ≤ inv a ∧ inv a < 32 ∧ sm (inv a) a = 1)
+    (N : Nat)
+    (H1 : ∀ k3 b k2 c k1, 1 ≤ k3 → 1 ≤ b → b < 32 → 1 ≤ k2 → 1 ≤ c → c < 32 → 1 ≤ k1 →
+      k1 + k2 + k3 ≤ N →
+      32 ≤ iter (mulX W G) k1 (iter (mulX W G) k2 (iter (mulX W G) k3 1 ^^^ b) ^^^ c)) :
+    ∀ a, 1 ≤ a → a < 32 → ∀ k3 b k2 c k1, 1 ≤ k3 → 1 ≤ b → b < 32 → 1 ≤ k2 → 1 ≤ c → c < 32 →
+      1 ≤ k1 → k1 + k2 + k3 ≤ N →
+      32 ≤ iter (mulX W G) k1 (iter (mulX W G) k2 (iter (mulX W G) k3 a ^^^ b) ^^^ c) := by
+  intro a ha1 ha2 k3 b k2 c k1 h1 hb1 hb2 h2 hc1 hc2 h3 h4
+  obtain ⟨hm1, hm2, hma⟩ := hinv a ha1 ha2
+  have hB : ∀ v, v < 32 → v < 2 ^ (W + 5) := fun v hv => Nat.lt_of_lt_of_le hv (le32_pow W)
+  have hiter : ∀ k s, s < 2 ^ (W + 5) →
+      sm (inv a) (iter (mulX W G) k s) = iter (mulX W G) k (sm (inv a) s) := by
+    intro k
+    induction k with
+    | zero => intro s _; rfl
+    | succ k ih =>
+      intro s hs
+      show sm (inv a) (iter (mulX W G) k (mulX W G s)) = iter (mulX W G) k (mulX W G (sm (inv a) s))
+      rw [ih _ (h.mulX_lt s), hcomm (inv a) hm1 hm2 s hs]
+  have l1 : iter (mulX W G) k3 a < 2 ^ (W + 5) := h.iter_lt k3 a (hB a ha2)
+  have l2 : iter (mulX W G) k3 a ^^^ b < 2 ^ (W + 5) := Nat.xor_lt_two_pow l1 (hB b hb2)
+  have l3 : iter (mulX W G) k2 (iter (mulX W G) k3 a ^^^ b) < 2 ^ (W + 5) := h.iter_lt k2 _ l2
+  have l4 : iter (mulX W G) k2 (iter (mulX W G) k3 a ^^^ b) ^^^ c < 2 ^ (W + 5) :=
+    Nat.xor_lt_two_pow l3 (hB c hc2)
+  have key : sm (inv a) (iter (mulX W G) k1 (iter (mulX W G) k2 (iter (mulX W G) k3 a ^^^ b) ^^^ c))
+      = iter (mulX W G) k1 (iter (mulX W G) k2 (iter (mulX W G) k3 1 ^^^ sm (inv a) b)
+          ^^^ sm (inv a) c) := by
+    rw [hiter k1 _ l4, hlin, hiter k2 _ l2, hlin, hiter k3 a (hB a ha2), hma]
+  have hb' := hsym (inv a) hm2 b hb2
+  have hc' := hsym (inv a) hm2 c hc2
+  have hge := H1 k3 (sm (inv a) b) k2 (sm (inv a) c) k1 h1 (hb'.2 hm1 hb1) hb'.1 h2
+    (hc'.2 hm1 hc1) hc'.1 h3 h4
+  rw [← key] at hge
+  by_contra hlt
+  have := (hsym (inv a) hm2 _ (Nat.lt_of_not_le hlt)).1
+  omega
+
+/-- the same for the three-error fact. -/
+theorem LinReg.scale_first3 (h : LinReg W G) (sm : Nat → Nat → Nat) (inv : Nat → Nat)
+    (hlin : ∀ lam x y, sm lam (x ^^^ y) = sm lam x ^^^ sm lam y)
+    (hcomm : ∀ lam, 1 ≤ lam → lam < 32 → ∀ s, s < 2 ^ (W + 5) →
+      sm lam (mulX W G s) = mulX W G (sm lam s))
+    (hsym : ∀ lam, lam < 32 → ∀ v, v < 32 → sm lam v < 32 ∧ (1 ≤ lam → 1 ≤ v → 1 ≤ sm lam v))
+    (hinv : ∀ a, 1 ≤ a → a < 32 → 1 ≤ inv a ∧ inv a < 32 ∧ sm (inv a) a = 1)
+    (N : Nat)
+    (H1 : ∀ k2 b k1, 1 ≤ k2 → 1 ≤ b → b < 32 → 1 ≤ k1 → k1 + k2 ≤ N →
+      32 ≤ iter (mulX W G) k1 (iter (mulX W G) k2 1 ^^^ b)) :
+    ∀ a, 1 ≤ a → a < 32 → ∀ k2 b k1, 1 ≤ k2 → 1 ≤ b → b < 32 → 1 ≤ k1 → k1 + k2 ≤ N →
+      32 ≤ iter (mulX W G) k1 (iter (mulX W G) k2 a ^^^ b) := by
+  intro a ha1 ha2 k2 b k1 h2 hb1 hb2 h3 h4
+  obtain ⟨hm1, hm2, hma⟩ := hinv a ha1 ha2
+  have hB : ∀ v, v < 32 → v < 2 ^ (W + 5) := fun v hv => Nat.lt_of_lt_of_le hv (le32_pow W)
+  have hiter : ∀ k s, s < 2 ^ (W + 5) →
+      sm (inv a) (iter (mulX W G) k s) = iter (mulX W G) k (sm (inv a) s) := by
+    intro k
+    induction k with
+    | zero => intro s _; rfl
+    | succ k ih =>
+      intro s hs
+      show sm (inv a) (iter (mulX W G) k (mulX W G s)) = iter (mulX W G) k (mulX W G (sm (inv a) s))
+      rw [ih _ (h.mulX_lt s), hcomm (inv a) hm1 hm2 s hs]
+  have l1 : iter (mulX W G) k2 a < 2 ^ (W + 5) := h.iter_lt k2 a (hB a ha2)
+  have l2 : iter (mulX W G) k2 a ^^^ b < 2 ^ (W + 5) := Nat.xor_lt_two_pow l1 (hB b hb2)
+  have key : sm (inv a) (iter (mulX W G) k1 (iter (mulX W G) k2 a ^^^ b))
+      = iter (mulX W G) k1 (iter (mulX W G) k2 1 ^^^ sm (inv a) b) := by
+    rw [hiter k1 _ l2, hlin, hiter k2 a (hB a ha2), hma]
+  have hb' := hsym (inv a) hm2 b hb2
+  have hge := H1 k2 (sm (inv a) b) k1 h2 (hb'.2 hm1 hb1) hb'.1 h3 h4
+  rw [← key] at hge
+  by_contra hlt
+  have := (hsym (inv a) hm2 _ (Nat.lt_of_not_le hlt)).1
+  omega
+
+end Scale
+
+theorem iter3_congr (f g : Nat → Nat) (L : Nat) (hfg : ∀ c, c < 2 ^ L → f c = g c)
+    (hg : ∀ c, g c < 2 ^ L) (a b c k3 k2 k1 : Nat) (ha : a < 2 ^ L) (hb : b < 2 ^ L)
+    (hc : c < 2 ^ L) :
+    iter f k1 (iter f k2 (iter f k3 a ^^^ b) ^^^ c) = iter g k1 (iter g k2 (iter g k3 a ^^^ b) ^^^ c) := by
+  have hit : ∀ k x, x < 2 ^ L → iter g k x < 2 ^ L := by
+    intro k
+    induction k with
+    | zero => intro x hx; exact hx
+    | succ k ih => intro x _; exact ih _ (hg x)
+  rw [iter_congr f g _ hfg hg k3 a ha,
+    iter_congr f g _ hfg hg k2 _ (Nat.xor_lt_two_pow (hit k3 a ha) hb),
+    iter_congr f g _ hfg hg k1 _ (Nat.xor_lt_two_pow (hit k2 _ (Nat.xor_lt_two_pow (hit k3 a ha) hb)) hc)]
+
+theorem iter2_congr (f g : Nat → Nat) (L : Nat) (hfg : ∀ c, c < 2 ^ L → f c = g c)
+    (hg : ∀ c, g c < 2 ^ L) (a b k2 k1 : Nat) (ha : a < 2 ^ L) (hb : b < 2 ^ L) :
+    iter f k1 (iter f k2 a ^^^ b) = iter g k1 (iter g k2 a ^^^ b) := by
+  have hit : ∀ k x, x < 2 ^ L → iter g k x < 2 ^ L := by
+    intro k
+    induction k with
+    | zero => intro x hx; exact hx
+    | succ k ih => intro x _; exact ih _ (hg x)
+  rw [iter_congr f g _ hfg hg k2 a ha,
+    iter_congr f g _ hfg hg k1 _ (Nat.xor_lt_two_pow (hit k2 a ha) hb)]
+
+/-- the lane step is the register step once the feedback is written with its generators. -/
+theorem sX_eq_mulX (W : Nat) (G : Nat → Nat) (g0 g1 g2 g3 g4 : Nat)
+    (hG : ∀ t, t < 32 → G t = ((t &&& 1) * g0) ^^^ ((((t >>> 1) &&& 1) * g1) ^^^
+      ((((t >>> 2) &&& 1) * g2) ^^^ ((((t >>> 3) &&& 1) * g3) ^^^ (((t >>> 4) &&& 1) * g4)))))
+    (v : Nat) (hv : v < 2 ^ (W + 5)) : sX W g0 g1 g2 g3 g4 v = mulX W G v := by
+  have ht : v >>> W < 32 := by
+    rw [Nat.shiftRight_eq_div_pow, Nat.div_lt_iff_lt_mul (Nat.two_pow_pos W), Nat.mul_comm]
+    have : 2 ^ (W + 5) = 2 ^ W * 32 := by rw [pow_add]; norm_num
+    omega
+  rw [mulX, pmStep, Nat.xor_zero, hG _ ht, sX]
+  simp only [Nat.shiftRight_add]
+
+/-! ### Bech32: GF(32) = GF(2)[α]/(α^5 + α^3 + 1) acting on the 30-bit register -/
+
+def gf32xt (a : Nat) : Nat := if (a <<< 1) < 32 then a <<< 1 else (a <<< 1) ^^^ 41
+
+def gf32mul (a b : Nat) : Nat :=
+  (if b.testBit 0 then a else 0) ^^^ ((if b.testBit 1 then gf32xt a else 0) ^^^
+    ((if b.testBit 2 then gf32xt (gf32xt a) else 0) ^^^
+      ((if b.testBit 3 then gf32xt (gf32xt (gf32xt a)) else 0) ^^^
+        (if b.testBit 4 then gf32xt (gf32xt (gf32xt (gf32xt a))) else 0))))
+
+def gf32inv (a : Nat) : Nat := ((List.range 32).find? (fun m => gf32mul a m == 1)).getD 0
+
+/-- column `i` of "multiply every symbol by `lam`": bit `i % 5` of symbol `i / 5`. -/
+def smulCol (lam i : Nat) : Nat := gf32mul lam (2 ^ (i % 5)) <<< (5 * (i / 5))
+
+/-- symbol-wise multiplication of a 6-symbol register state by `lam ∈ GF(32)`. -/
+def smul (lam s : Nat) : Nat := linExp (smulCol lam) 30 s
+
+theorem smulCol_lt : ∀ lam, lam < 32 → ∀ i, i < 30 → smulCol lam i < 2 ^ 30 := by decide +kernel
+
+theorem smul_comm_basis : ∀ lam, lam < 32 → ∀ i, i < 30 →
+    smul lam (bech32X (2 ^ i)) = bech32X (smul lam (2 ^ i)) := by decide +kernel
+
+theorem smul_sym : ∀ lam, lam < 32 → ∀ v, v < 32 →
+    smul lam v < 32 ∧ (1 ≤ lam → 1 ≤ v → 1 ≤ smul lam v) := by decide +kernel
+
+theorem smul_inv : ∀ a, a < 32 → 1 ≤ a →
+    1 ≤ gf32inv a ∧ gf32inv a < 32 ∧ smul (gf32inv a) a = 1 := by decide +kernel
+
+theorem smul_lt (lam : Nat) (hl : lam < 32) (s : Nat) : smul lam s < 2 ^ (25 + 5) :=
+  linExp_lt (smulCol lam) 30 30 (smulCol_lt lam hl) s
+
+theorem smul_comm (lam : Nat) (hl : lam < 32) (s : Nat) (hs : s < 2 ^ (25 + 5)) :
+    smul lam (mulX 25 bech32G s) = mulX 25 bech32G (smul lam s) := by
+  refine lin_ext (fun s => smul lam (mulX 25 bech32G s)) (fun s => mulX 25 bech32G (smul lam s))
+    ?_ ?_ 30 ?_ s hs
+  · intro x y
+    show smul lam (mulX 25 bech32G (x ^^^ y)) = _
+    rw [bech32_linReg.mulX_linear, smul, linExp_linear]
+    rfl
+  · intro x y
+    show mulX 25 bech32G (smul lam (x ^^^ y)) = _
+    rw [smul, linExp_linear, bech32_linReg.mulX_linear]
+    rfl
+  · intro i hi
+    show smul lam (mulX 25 bech32G (2 ^ i)) = mulX 25 bech32G (smul lam (2 ^ i))
+    have h1 : (2 : Nat) ^ i < 2 ^ (25 + 5) := Nat.pow_lt_pow_right (by omega) (by omega)
+    rw [← bech32X_eq _ h1, ← bech32X_eq _ (smul_lt lam hl _)]
+    exact smul_comm_basis lam hl i hi
+
+/-! ### Bech32: the 961 lanes `(b, c)` -/
+
+def bLanes : List (Nat × Nat) :=
+  (List.range' 1 31).flatMap fun b => (List.range' 1 31).map fun c => (b, c)
+
+theorem bLanes_length : bLanes.length = 961 := by decide +kernel
+
+theorem mem_bLanes (b c : Nat) (hb1 : 1 ≤ b) (hb2 : b < 32) (hc1 : 1 ≤ c) (hc2 : c < 32) :
+    (b, c) ∈ bLanes := by
+  simp only [bLanes, List.mem_flatMap, List.mem_map, List.mem_range'_1, Prod.mk.injEq]
+  exact ⟨b, ⟨hb1, by omega⟩, c, ⟨hc1, by omega⟩, rfl, rfl⟩
+
+/-- lane step for Bech32. -/
+def bSX (v : Nat) : Nat := sX 25 996825010 642813549 513874426 1027748829 705979059 v
+
+def bM : Nat := pack 30 (List.replicate 961 (2 ^ 25 - 1))
+def bO : Nat := pack 30 (List.replicate 961 1)
+def bStp (V : Nat) : Nat := vX 25 996825010 642813549 513874426 1027748829 705979059 bM bO V
+def bTst (V : Nat) : Bool := vTest 25 bM bO V
+def bP2 : Nat := pack 30 (bLanes.map Prod.fst)
+def bP : Nat := pack 30 (bLanes.map Prod.snd)
+def bStart : Nat := pack 30 (bLanes.map fun _ => 1)
+
+theorem bSX_lt (v : Nat) : bSX v < 2 ^ 30 :=
+  sX_lt 25 996825010 642813549 513874426 1027748829 705979059 (by decide) (by decide) (by decide) (by decide) (by decide) v
+
+theorem bech32G_gens : ∀ t, t < 32 → bech32G t =
+    ((t &&& 1) * 996825010) ^^^ ((((t >>> 1) &&& 1) * 642813549) ^^^
+      ((((t >>> 2) &&& 1) * 513874426) ^^^ ((((t >>> 3) &&& 1) * 1027748829) ^^^
+        (((t >>> 4) &&& 1) * 705979059)))) := by decide +kernel
+
+theorem bSX_eq (v : Nat) (hv : v < 2 ^ 30) : bSX v = mulX 25 bech32G v :=
+  sX_eq_mulX 25 bech32G 996825010 642813549 513874426 1027748829 705979059 bech32G_gens v hv
+
+theorem bStp_spec (g : Nat × Nat → Nat) (hg : ∀ t ∈ bLanes, g t < 2 ^ 30) :
+    bStp (pack 30 (bLanes.map g)) = pack 30 (bLanes.map fun t => bSX (g t)) := by
+  have h := vX_pack_map 25 996825010 642813549 513874426 1027748829 705979059 (by decide) (by decide) (by decide) (by decide) (by decide)
+    bLanes g hg
+  rw [bLanes_length] at h
+  exact h
+
+theorem bTst_spec (g : Nat × Nat → Nat) (hg : ∀ t ∈ bLanes, g t < 2 ^ 30)
+    (h : bTst (pack 30 (bLanes.map g)) = true) : ∀ t ∈ bLanes, 32 ≤ g t := by
+  have h' := vTest_map 25 bLanes g hg
+  rw [bLanes_length] at h'
+  exact h' h
+
+/-- what one kernel-evaluated chunk (`cnt` values of `k3` after `lo`) establishes. -/
+theorem b4_of_chunk (lo cnt : Nat)
+    (h : loopK3 bStp bTst bP2 bP cnt (88 - lo) (iterV bStp lo bStart) = true) :
+    ∀ k3 b k2 c k1, lo < k3 → k3 ≤ lo + cnt → 1 ≤ b → b < 32 → 1 ≤ k2 → 1 ≤ c → c < 32 → 1 ≤ k1 →
+      k1 + k2 + k3 ≤ 88 → 32 ≤ iter bSX k1 (iter bSX k2 (iter bSX k3 1 ^^^ b) ^^^ c) := by
+  intro k3 b k2 c k1 h1 h2 hb1 hb2 h3 hc1 hc2 h4 h5
+  have hlt32 : ∀ v, v < 32 → v < 2 ^ 30 := fun v hv => by omega
+  rw [bStart, iterV_spec bLanes bSX_lt bStp_spec lo (fun _ => 1) (fun _ _ => by norm_num)] at h
+  have hit : iter bSX lo 1 < 2 ^ 30 := by
+    cases lo with
+    | zero => show (1 : Nat) < 2 ^ 30; norm_num
+    | succ n =>
+      have : ∀ k x, x < 2 ^ 30 → iter bSX k x < 2 ^ 30 := by
+        intro k
+        induction k with
+        | zero => intro x hx; exact hx
+        | succ k ih => intro x _; exact ih _ (bSX_lt x)
+      exact this n _ (bSX_lt 1)
+  have := loopK3_spec bLanes bSX_lt bStp_spec bTst_spec cnt (88 - lo) (fun _ => iter bSX lo 1)
+    Prod.fst Prod.snd (fun _ _ => hit)
+    (by
+      intro t ht
+      simp only [bLanes, List.mem_flatMap, List.mem_map, List.mem_range'_1] at ht
+      obtain ⟨b, hb, c, hc, rfl⟩ := ht
+      exact hlt32 b (by omega))
+    (by
+      intro t ht
+      simp only [bLanes, List.mem_flatMap, List.mem_map, List.mem_range'_1] at ht
+      obtain ⟨b, hb, c, hc, rfl⟩ := ht
+      exact hlt32 c (by omega))
+    h (k3 - lo) k2 k1 (by omega) (by omega) h3 h4 (by omega) (b, c) (mem_bLanes b c hb1 hb2 hc1 hc2)
+  rw [← iter_add] at this
+  have e : k3 - lo + lo = k3 := by omega
+  rwa [e] at this
+
+theorem b4_chunk0 : loopK3 bStp bTst bP2 bP 4 (88 - 0) (iterV bStp 0 bStart) = true := by
+  decide +kernel
+theorem b4_chunk1 : loopK3 bStp bTst bP2 bP 5 (88 - 4) (iterV bStp 4 bStart) = true := by
+  decide +kernel
+theorem b4_chunk2 : loopK3 bStp bTst bP2 bP 5 (88 - 9) (iterV bStp 9 bStart) = true := by
+  decide +kernel
+theorem b4_chunk3 : loopK3 bStp bTst bP2 bP 6 (88 - 14) (iterV bStp 14 bStart) = true := by
+  decide +kernel
+theorem b4_chunk4 : loopK3 bStp bTst bP2 bP 8 (88 - 20) (iterV bStp 20 bStart) = true := by
+  decide +kernel
+theorem b4_chunk5 : loopK3 bStp bTst bP2 bP 11 (88 - 28) (iterV bStp 28 bStart) = true := by
+  decide +kernel
+theorem b4_chunk6 : loopK3 bStp bTst bP2 bP 47 (88 - 39) (iterV bStp 39 bStart) = true := by
+  decide +kernel
+
+/-- `x^k1 (x^k2 (x^k3 1 ^^^ b) ^^^ c) ≥ 32` whenever `k1 + k2 + k3 ≤ 88`. -/
+theorem b4_first_one : ∀ k3 b k2 c k1, 1 ≤ k3 → 1 ≤ b → b < 32 → 1 ≤ k2 → 1 ≤ c → c < 32 → 1 ≤ k1 →
+    k1 + k2 + k3 ≤ 88 →
+    32 ≤ iter (mulX 25 bech32G) k1 (iter (mulX 25 bech32G) k2 (iter (mulX 25 bech32G) k3 1 ^^^ b)
+      ^^^ c) := by
+  intro k3 b k2 c k1 h1 hb1 hb2 h2 hc1 hc2 h3 h4
+  rw [← iter3_congr bSX (mulX 25 bech32G) 30 bSX_eq bech32_linReg.mulX_lt 1 b c k3 k2 k1
+    (by norm_num) (by omega) (by omega)]
+  have hk : k3 ≤ 4 ∨ (4 < k3 ∧ k3 ≤ 9) ∨ (9 < k3 ∧ k3 ≤ 14) ∨ (14 < k3 ∧ k3 ≤ 20) ∨ (20 < k3 ∧ k3 ≤ 28) ∨ (28 < k3 ∧ k3 ≤ 39) ∨ (39 < k3 ∧ k3 ≤ 86) := by omega
+  rcases hk with hk | hk | hk | hk | hk | hk | hk
+  · exact b4_of_chunk 0 4 b4_chunk0 k3 b k2 c k1 (by omega) (by omega) hb1 hb2 h2 hc1 hc2 h3 h4
+  · exact b4_of_chunk 4 5 b4_chunk1 k3 b k2 c k1 (by omega) (by omega) hb1 hb2 h2 hc1 hc2 h3 h4
+  · exact b4_of_chunk 9 5 b4_chunk2 k3 b k2 c k1 (by omega) (by omega) hb1 hb2 h2 hc1 hc2 h3 h4
+  · exact b4_of_chunk 14 6 b4_chunk3 k3 b k2 c k1 (by omega) (by omega) hb1 hb2 h2 hc1 hc2 h3 h4
+  · exact b4_of_chunk 20 8 b4_chunk4 k3 b k2 c k1 (by omega) (by omega) hb1 hb2 h2 hc1 hc2 h3 h4
+  · exact b4_of_chunk 28 11 b4_chunk5 k3 b k2 c k1 (by omega) (by omega) hb1 hb2 h2 hc1 hc2 h3 h4
+  · exact b4_of_chunk 39 47 b4_chunk6 k3 b k2 c k1 (by omega) (by omega) hb1 hb2 h2 hc1 hc2 h3 h4
+
+theorem b4_all : ∀ a, 1 ≤ a → a < 32 → ∀ k3 b k2 c k1, 1 ≤ k3 → 1 ≤ b → b < 32 → 1 ≤ k2 → 1 ≤ c →
+    c < 32 → 1 ≤ k1 → k1 + k2 + k3 ≤ 88 →
+    32 ≤ iter (mulX 25 bech32G) k1 (iter (mulX 25 bech32G) k2 (iter (mulX 25 bech32G) k3 a ^^^ b)
+      ^^^ c) :=
+  bech32_linReg.scale_first smul gf32inv (fun _ x y => linExp_linear _ _ x y)
+    (fun lam _ h2 s hs => smul_comm lam h2 s hs) smul_sym
+    (fun a h1 h2 => smul_inv a h2 h1) 88 b4_first_one
+
+/-- **Bech32 / Bech32m: every quadruple substitution in a data part of ≤ 89 symbols is detected**
+— with `bech32_detects_one/two/three` this is the BIP-173 guarantee "any error affecting at most 4
+characters is detected" for substitutions in the data part. -/
+theorem bech32_detects_four (hrp : List Char) (d d' : List Nat) (m : Bool)
+    (hv : bech32Verify hrp d m = true) (hlen : d'.length = d.length) (hL : d.length ≤ 89)
+    (hd : ∀ x ∈ d, x < 32) (hd' : ∀ x ∈ d', x < 32) (hh : hamming d d' = 4) :
+    bech32Verify hrp d' m = false :=
+  bech32_detect hrp d d' m 4 hv hlen hd hd' hh
+    (fun e he hw hl => bech32_linReg.weight_four 88 b4_all e he hw (by omega))
+
+/-! ### Bech32, three errors: 31 lanes `b`, first symbol scaled to 1, `k1 + k2 ≤ 255` -/
+
+def b3Lanes : List Nat := List.range' 1 31
+
+theorem b3Lanes_length : b3Lanes.length = 31 := by decide
+
+def b3M : Nat := pack 30 (List.replicate 31 (2 ^ 25 - 1))
+def b3O : Nat := pack 30 (List.replicate 31 1)
+def b3Stp (V : Nat) : Nat := vX 25 996825010 642813549 513874426 1027748829 705979059 b3M b3O V
+def b3Tst (V : Nat) : Bool := vTest 25 b3M b3O V
+def b3P : Nat := pack 30 (b3Lanes.map fun b => b)
+def b3Start : Nat := pack 30 (b3Lanes.map fun _ => 1)
+
+theorem b3Stp_spec (g : Nat → Nat) (hg : ∀ t ∈ b3Lanes, g t < 2 ^ 30) :
+    b3Stp (pack 30 (b3Lanes.map g)) = pack 30 (b3Lanes.map fun t => bSX (g t)) := by
+  have h := vX_pack_map 25 996825010 642813549 513874426 1027748829 705979059 (by decide) (by decide) (by decide) (by decide) (by decide)
+    b3Lanes g hg
+  rw [b3Lanes_length] at h
+  exact h
+
+theorem b3Tst_spec (g : Nat → Nat) (hg : ∀ t ∈ b3Lanes, g t < 2 ^ 30)
+    (h : b3Tst (pack 30 (b3Lanes.map g)) = true) : ∀ t ∈ b3Lanes, 32 ≤ g t := by
+  have h' := vTest_map 25 b3Lanes g hg
+  rw [b3Lanes_length] at h'
+  exact h' h
+
+theorem b3_chk : loopK2 b3Stp b3Tst b3P 255 b3Start = true := by
+  decide +kernel
+
+theorem b3_first_one : ∀ k2 b k1, 1 ≤ k2 → 1 ≤ b → b < 32 → 1 ≤ k1 → k1 + k2 ≤ 255 →
+    32 ≤ iter (mulX 25 bech32G) k1 (iter (mulX 25 bech32G) k2 1 ^^^ b) := by
+  intro k2 b k1 h2 hb1 hb2 h3 h4
+  rw [← iter2_congr bSX (mulX 25 bech32G) 30 bSX_eq bech32_linReg.mulX_lt 1 b k2 k1
+    (by norm_num) (by omega)]
+  have hmem : ∀ t ∈ b3Lanes, t < 2 ^ 30 := by
+    intro t ht
+    simp only [b3Lanes, List.mem_range'_1] at ht
+    omega
+  exact loopK2_spec b3Lanes bSX_lt b3Stp_spec b3Tst_spec 255 (fun _ => 1) (fun b => b)
+    (fun _ _ => by norm_num) hmem b3_chk k2 k1 h2 h3 h4 b
+    (by simp only [b3Lanes, List.mem_range'_1]; omega)
+
+theorem b3_all : ∀ a, 1 ≤ a → a < 32 → ∀ k2 b k1, 1 ≤ k2 → 1 ≤ b → b < 32 → 1 ≤ k1 →
+    k1 + k2 ≤ 255 → 32 ≤ iter (mulX 25 bech32G) k1 (iter (mulX 25 bech32G) k2 a ^^^ b) :=
+  bech32_linReg.scale_first3 smul gf32inv (fun _ x y => linExp_linear _ _ x y)
+    (fun lam _ h2 s hs => smul_comm lam h2 s hs) smul_sym
+    (fun a h1 h2 => smul_inv a h2 h1) 255 b3_first_one
+
+/-- **Bech32 / Bech32m: every triple substitution in a data part of ≤ 256 symbols is detected.** -/
+theorem bech32_detects_three (hrp : List Char) (d d' : List Nat) (m : Bool)
+    (hv : bech32Verify hrp d m = true) (hlen : d'.length = d.length) (hL : d.length ≤ 256)
+    (hd : ∀ x ∈ d, x < 32) (hd' : ∀ x ∈ d', x < 32) (hh : hamming d d' = 3) :
+    bech32Verify hrp d' m = false :=
+  bech32_detect hrp d d' m 3 hv hlen hd hd' hh
+    (fun e he hw hl => bech32_linReg.weight_three 255 b3_all e he hw (by omega))
+
+/-! ### CashAddr, three errors: 961 lanes `(a, b)` of 40 bits, `k1 + k2 ≤ 112` -/
+
+def cSX (v : Nat) : Nat := sX 35 656907472481 522768456162 1044723512260 748107326120 130178868336 v
+
+def cM : Nat := pack 40 (List.replicate 961 (2 ^ 35 - 1))
+def cO : Nat := pack 40 (List.replicate 961 1)
+def cStp (V : Nat) : Nat := vX 35 656907472481 522768456162 1044723512260 748107326120 130178868336 cM cO V
+def cTst (V : Nat) : Bool := vTest 35 cM cO V
+def cP : Nat := pack 40 (bLanes.map Prod.snd)
+def cStart : Nat := pack 40 (bLanes.map Prod.fst)
+
+theorem cSX_lt (v : Nat) : cSX v < 2 ^ 40 :=
+  sX_lt 35 656907472481 522768456162 1044723512260 748107326120 130178868336 (by decide) (by decide) (by decide) (by decide) (by decide) v
+
+theorem bchG_gens : ∀ t, t < 32 → bchG t =
+    ((t &&& 1) * 656907472481) ^^^ ((((t >>> 1) &&& 1) * 522768456162) ^^^
+      ((((t >>> 2) &&& 1) * 1044723512260) ^^^ ((((t >>> 3) &&& 1) * 748107326120) ^^^
+        (((t >>> 4) &&& 1) * 130178868336)))) := by decide +kernel
+
+theorem cSX_eq (v : Nat) (hv : v < 2 ^ 40) : cSX v = mulX 35 bchG v :=
+  sX_eq_mulX 35 bchG 656907472481 522768456162 1044723512260 748107326120 130178868336 bchG_gens v hv
+
+theorem cStp_spec (g : Nat × Nat → Nat) (hg : ∀ t ∈ bLanes, g t < 2 ^ 40) :
+    cStp (pack 40 (bLanes.map g)) = pack 40 (bLanes.map fun t => cSX (g t)) := by
+  have h := vX_pack_map 35 656907472481 522768456162 1044723512260 748107326120 130178868336 (by decide) (by decide) (by decide) (by decide) (by decide)
+    bLanes g hg
+  rw [bLanes_length] at h
+  exact h
+
+theorem cTst_spec (g : Nat × Nat → Nat) (hg : ∀ t ∈ bLanes, g t < 2 ^ 40)
+    (h : cTst (pack 40 (bLanes.map g)) = true) : ∀ t ∈ bLanes, 32 ≤ g t := by
+  have h' := vTest_map 35 bLanes g hg
+  rw [bLanes_length] at h'
+  exact h' h
+
+theorem c3_chk : loopK2 cStp cTst cP 112 cStart = true := by
+  decide +kernel
+
+theorem c3_all : ∀ a, 1 ≤ a → a < 32 → ∀ k2 b k1, 1 ≤ k2 → 1 ≤ b → b < 32 → 1 ≤ k1 →
+    k1 + k2 ≤ 112 → 32 ≤ iter (mulX 35 bchG) k1 (iter (mulX 35 bchG) k2 a ^^^ b) := by
+  intro a ha1 ha2 k2 b k1 h2 hb1 hb2 h3 h4
+  rw [← iter2_congr cSX (mulX 35 bchG) 40 cSX_eq bch_linReg.mulX_lt a b k2 k1
+    (by omega) (by omega)]
+  have hmem : ∀ t ∈ bLanes, t.1 < 2 ^ 40 ∧ t.2 < 2 ^ 40 := by
+    intro t ht
+    simp only [bLanes, List.mem_flatMap, List.mem_map, List.mem_range'_1] at ht
+    obtain ⟨b, hb, c, hc, rfl⟩ := ht
+    exact ⟨by show b < 2 ^ 40; omega, by show c < 2 ^ 40; omega⟩
+  exact loopK2_spec bLanes cSX_lt cStp_spec cTst_spec 112 Prod.fst Prod.snd
+    (fun t ht => (hmem t ht).1) (fun t ht => (hmem t ht).2) c3_chk k2 k1 h2 h3 h4 (a, b)
+    (mem_bLanes a b ha1 ha2 hb1 hb2)
+
+/-- **CashAddr: every triple substitution in a data part of ≤ 113 symbols is detected** (the longest
+CashAddr payload, a 512-bit hash, has 112 data symbols). -/
+theorem bch_detects_three (hrp : List Char) (d d' : List Nat)
+    (hv : bchVerify hrp d = true) (hlen : d'.length = d.length) (hL : d.length ≤ 113)
+    (hd : ∀ x ∈ d, x < 32) (hd' : ∀ x ∈ d', x < 32) (hh : hamming d d' = 3) :
+    bchVerify hrp d' = false :=
+  bch_detect hrp d d' 3 hv hlen hd hd' hh
+    (fun e he hw hl => bch_linReg.weight_three 112 c3_all e he hw (by omega))
 
 end BipVerif.Model
